@@ -33,7 +33,7 @@ func c20SphPart(name string, mk func(thorough bool) *c20SphCfg) explore.Part {
 			New:              func() explore.Instance { return newC20SphInst(cfg) },
 			MaxDepth:         cfg.depth,
 			PanicIsViolation: true,
-			Rule: fmt.Sprintf("BFS depth %d over the real sentPacketHandler (1-RTT space, handshake confirmed, sequential packet numbers) + %s; obedient sender: send sizes %v (0 full,1 100 bytes) only on SendAny, flood=%v, pure ACKs <=%d, PTO probes %v, ack %v (0 oldest,1 newest,2 all; only packets younger than 60 s), loss-detection timeout at the alarm, pacer deadline, clock steps %v, MTU +80 x<=%d; state = canon(handler incl. congestion controller) + in-flight ledger",
+			Rule: fmt.Sprintf("BFS depth %d over the real sentPacketHandler (1-RTT space, handshake confirmed, sequential packet numbers) + %s; obedient sender: send sizes %v (0 full,1 100 bytes) only on SendAny, flood=%v, pure ACKs <=%d, PTO probes %v, ack %v (0 oldest,1 newest,2 all,3 fourth-oldest of >=5 outstanding; only packets younger than 60 s), loss-detection timeout at the alarm, pacer deadline, clock steps %v, MTU +80 x<=%d; probe allowance = 2 per timer expiry, void after an ACK of new data; state = canon(handler incl. congestion controller) + in-flight ledger + probe allowance",
 				cfg.depth, cc, cfg.sizes, cfg.flood, cfg.maxAcks, cfg.probes, cfg.acks, cfg.steps, cfg.maxMTU),
 		}
 	}
@@ -47,17 +47,16 @@ func c20SphPart(name string, mk func(thorough bool) *c20SphCfg) explore.Part {
 func c20SphCfgOf(reno bool, initPkts int, dq, dt int) func(bool) *c20SphCfg {
 	return func(th bool) *c20SphCfg {
 		c := &c20SphCfg{reno: reno, initPkts: protocol.ByteCount(initPkts), depth: dq,
-			sizes: []int{0, 1}, maxAcks: 1, acks: []int{0, 1}, probes: []int{0, 1},
-			steps: []time.Duration{time.Millisecond, time.Second}, maxMTU: 1,
+			sizes: []int{0, 1}, maxAcks: 1, acks: []int{0, 1, 3}, probes: []int{0, 1},
+			steps: []time.Duration{time.Millisecond, time.Second}, maxMTU: 1, flood: true,
 		}
 		if initPkts == 0 {
-			c.flood = true
 			c.sizes = []int{0}
 		}
 		if th {
 			c.depth = dt
 			if initPkts != 4 || !reno {
-				c.acks = []int{0, 1, 2}
+				c.acks = []int{0, 1, 2, 3}
 			}
 		}
 		return c
